@@ -651,6 +651,14 @@ func (vt *Model) decstbm(pm [][]int) {
 		top = row(pm[0][0] - 1)
 		bot = row(pm[1][0] - 1)
 	}
+	// A parameter of 0 means the default: first line for the top, last
+	// line for the bottom. The bottom margin can't be past the screen
+	if top < 0 {
+		top = 0
+	}
+	if bot < 0 || bot > row(vt.height())-1 {
+		bot = row(vt.height()) - 1
+	}
 	if top >= bot {
 		return
 	}
